@@ -274,6 +274,14 @@ Vector Spherical_Coordinates(double r, double theta, double phi, const Vector& a
 	libphysica::Vector ev = axis.Normalized();
 	if(ev[2] == 1.0 || axis.Norm() == 0.0)
 		return Spherical_Coordinates(r, theta, phi);
+	else if(ev[2] == -1.0)
+	{
+		// Axis antiparallel to z: the general formula divides by sqrt(1-ev[2]^2)=0. Use the right-handed frame (x,-y,-z).
+		Vector v = Spherical_Coordinates(r, theta, phi);
+		v[1]	 = -v[1];
+		v[2]	 = -v[2];
+		return v;
+	}
 	else
 	{
 		double aux = sqrt(1.0 - pow(ev[2], 2.0));
